@@ -281,6 +281,12 @@ def run(chk):
                     chk.violation("fmt-other|%s|%s" % ("default" if align is None else align, "pad" if pad else "nopad"),
                                   "format(\"%s\", %s) gives %r; \"{}\" gives %r, so the padded text must be %r (non-integers are padded on the right unless < or > is given)" % (
                                       sp, v, got, nat, want), {"value": v, "spec": sp, "got": got, "natural": nat})
+        # a print that fails (its stream is a full device) leaves no trace in what later prints write and return
+        iso = []
+        for tag, failing in (("eprintln", ["eprintln(\"lost {}\", 1);"]), ("eprint-long", ["eprint(\"{}\", \"L\" * 3000);"]),
+                             ("eprintln-twice", ["eprintln(\"a\");", "eprint(\"b {} {}\", 1, 2);"]), ("write-stderr", ["write(stderr, \"raw\"); flush(stderr);"])):
+            iso.append((tag, [], failing, ["puts(println(\"kept {}\", 2));", "puts(print(\"x{:>4}|\", 7));", "puts(format(\"{}-{}\", 1, 2));", "puts(println(\"{}\", \"end\"));"], []))
+        core.isolation_after_errors(chk, "print", iso, stderr_path="/dev/full")
         # end to end through the real binary (both profiles): stdout/stderr bytes
         m = 150 if quick else 1500
         picks = [j for j in jobs if j[0] != "format" and j[3][0] == "ok"][:m]
